@@ -1408,3 +1408,65 @@ def check_C10(ctx):
     ctx.coverage["samples"] = probe_lines[:2] + [leg[0][0]]
     ctx.coverage["evaluations"] = len(probe_lines) + len(leg)
     ctx.coverage["distinct_nontrivial"] = len(set(probe_lines)) + len({l for l, _, _ in leg})
+
+
+# ---- C12: values through mocks ------------------------------------------------------------------
+def check_C12(ctx):
+    lean_check(ctx)
+    rng = random.Random(ctx.seed * 1000 + 12)
+    impl = build_impl(ctx, asan=True)
+    exe = compile_harness(ctx, impl, "val_probe", ["val_probe.c"])
+    B = [0, 1, -1, 2**31 - 1, 2**31, -2**31, -2**31 - 1, 2**32 - 1, 2**32, 2**63 - 1, -2**63, 0x1122334455667788, -0x1122334455667788]
+    cases = []      # (line, expected output before the failure count, model line or None)
+    for v in B + [rng.randrange(-2**63, 2**63) for _ in range(sizes(ctx, 300, 20000))]:
+        cases.append((f"ret {v}", f"{v} {v} {v}", None))
+    dbits = [0, 1 << 63, 0x7ff0000000000000, 0xfff0000000000000, 0x7ff8000000000000, 0x7ff0000000000001, 0xfff8dead0000beef, 1, 0x000fffffffffffff, 0x0010000000000000,
+             0x7fefffffffffffff, 0x3ff0000000000000] + [rng.randrange(0, 2**64) for _ in range(sizes(ctx, 400, 30000))]
+    for b in dbits:
+        cases.append((f"retd {b:016x}", f"{b:016x}", None))
+        cases.append((f"box {b:016x}", f"{b:016x}", None))
+    for size in list(range(1, sizes(ctx, 40, 65))) + [100, 257, 1000]:
+        data = bytes(rng.randrange(256) for _ in range(size))
+        cases.append((f"byval {size} {data.hex()}", " ".join([data.hex()] * 3), None))
+    for _ in range(sizes(ctx, 400, 20000)):
+        bufsize = rng.choice([8, 16, 33, 64, 200])
+        size = rng.randrange(1, bufsize + 1)
+        off = rng.randrange(0, bufsize - size + 1)
+        data = bytes(rng.randrange(256) for _ in range(size))
+        buf = bytearray(b"\xaa" * bufsize); buf[off:off + size] = data
+        cases.append((f"setc {bufsize} {off} {size} {data.hex()}", bytes(buf).hex(), f"setc {bufsize} {off} {size} {data.hex()}"))
+    for size in (1, 2, 4, 8):
+        for v in B + [rng.randrange(-2**63, 2**63) for _ in range(sizes(ctx, 60, 3000))]:
+            want = "aa" * 8 + (v % 2**(8 * size)).to_bytes(size, "little").hex() + "aa" * 8
+            cases.append((f"cap {size} {v}", want, f"cap {size} {v}"))
+    for _ in range(sizes(ctx, 80, 2000)):
+        vs = [max(-2**63, min(2**63 - 1, rng.choice(B) + k)) for k in range(4)]
+        pos = rng.randrange(4)
+        cases.append((f"capn {pos} " + " ".join(str(x) for x in vs), str(vs[pos]), None))
+    lines = [c[0] for c in cases]
+    got, rc, err = run_probe(exe, lines, env=asan_env())
+    mlines = [c[2] for c in cases if c[2]]
+    model = iter(run_model(["val"], "\n".join(mlines) + "\n").split("\n")[:-1])
+    if rc != 0 or len(got) != len(lines):
+        bad = lines[min(len(got), len(lines) - 1)]
+        ctx.violation(f"[C12] a value's passage through a mock crashed or tripped the sanitizer (exit {rc}) on `{bad[:120]}`: " +
+                      " ".join(l for l in err.split("\n") if "ERROR" in l or "SUMMARY" in l)[:300], bad, found_input=True, facts={"crash": True})
+        return
+    ndis = nor = 0
+    for (line, want, ml), g in zip(cases, got):
+        val, _, fails = g.rpartition(" f")
+        if ml:
+            m = next(model)
+            if m != val:
+                ndis += 1
+                if ndis <= 3: ctx.oblige("correspondence C12 (capture / set contents)", False, f"`{line[:100]}`: model {m[:80]} impl {val[:80]}")
+        if val != want or fails != "0":
+            nor += 1
+            if nor <= 6:
+                ctx.violation(f"[C12] `{line[:100]}`: got {val[:120]} ({fails} failures), the value that went in is {want[:120]}", "# feed to harness/val_probe (ASan)\n" + line, found_input=True,
+                              facts={"form": line.split(" ")[0]})
+    ctx.oblige("correspondence C12: model and implementation agree on every captured value and every written buffer", ndis == 0, f"{ndis} disagreements")
+    ctx.coverage["correspondence"] = {"cases": len(lines), "disagreements": ndis, "oracle_failures": nor}
+    ctx.coverage["samples"] = [lines[0], lines[len(lines) // 2], lines[-1]]
+    ctx.coverage["evaluations"] = len(lines)
+    ctx.coverage["distinct_nontrivial"] = len(set(lines))
